@@ -18,7 +18,7 @@ E18 = tuple((s, d, l) for s in (0, 1, 2) for d in (0, 1, 2) for l in (0, 1))
 PASSIVE = ((0, 1), (1, 0), (2, 0), (0, 2), (1, 1), (3, 0), (0, 3), (2, 1))
 
 BOUNDS = {
-    "quick": {"configs": [{"alphabet": "E4", "K": 3, "shaped": True}, {"alphabet": "E4", "K": 2, "shaped": False, "unit_us": 1000}], "backends": list(S.BACKENDS), "passive_bucket_events": len(PASSIVE)},
+    "quick": {"configs": [{"alphabet": "E4", "K": 3, "shaped": True}, {"alphabet": "E4", "K": 2, "shaped": False, "unit_us": 1000}, {"alphabet": "E4", "K": 2, "shaped": False, "unit_us": 2_060_851_507, "why": "a lattice unit of 2060.851507 s: durations whose float seconds times 1e6 truncate one microsecond short (seeded: the sqlite bulk-upsert path converted through floats)"}], "backends": list(S.BACKENDS), "passive_bucket_events": len(PASSIVE)},
     "thorough": {"configs": [{"alphabet": "E6", "K": 3, "shaped": True}, {"alphabet": "E6", "K": 3, "shaped": False, "unit_us": 1000}, {"alphabet": "E6", "K": 4, "shaped": False}, {"alphabet": "E18", "K": 3, "shaped": False}], "backends": list(S.BACKENDS), "passive_bucket_events": len(PASSIVE)},
 }
 RULE = (
